@@ -172,7 +172,10 @@ class LSym:
         if isinstance(v, int): return Poly.const(v)
         if isinstance(v, Slice): return self.ctx.bits(v.x, v.a, v.b)
         if isinstance(v, Cond): return self.boolvar(v)
-        if v is UNDEF: return Poly.var(self.ctx.fresh("u", 0, (1 << 64) - 1))
+        if v is UNDEF:
+            u = self.ctx.fresh("u", 0, (1 << 64) - 1)
+            if self.ctx.shadow is not None: self.ctx.shadow[u] = 0
+            return Poly.var(u)
         if isinstance(v, MaskedXor) or isinstance(v, XorNode):
             raise Unsupported("xor value used arithmetically")
         raise Unsupported("cannot use %r as integer" % (v,))
@@ -187,9 +190,23 @@ class LSym:
         cache = self.ctx.__dict__.setdefault("_boolcache", {})
         if key in cache: return cache[key]
         v = self.ctx.fresh("c", 0, 1)
+        if self.ctx.shadow is not None: self.ctx.shadow[v] = 1 if self.shadow_cond(c) else 0
         self.ctx.side.append(("booldef", v, c))
         cache[key] = Poly.var(v)
         return cache[key]
+    def shadow_cond(self, c):
+        k = c.k; sh = self.ctx.shadow
+        if k == "const": return c.a[0]
+        if k == "not": return not self.shadow_cond(c.a[0])
+        if k == "and": return self.shadow_cond(c.a[0]) and self.shadow_cond(c.a[1])
+        if k == "or": return self.shadow_cond(c.a[0]) or self.shadow_cond(c.a[1])
+        if k == "cmp":
+            v = self.ctx.resolve(c.a[1] - c.a[2]).eval(sh)
+            return {"eq": v == 0, "ne": v != 0, "lt": v < 0, "le": v <= 0, "gt": v > 0, "ge": v >= 0}[c.a[0]]
+        if k in ("modne", "modeq"):
+            z = self.ctx.resolve(c.a[0]).eval(sh) % c.a[1] == 0
+            return z == (k == "modeq")
+        raise ValueError(k)
     def is_bool(self, p):
         lo, hi = self.ctx.interval(self.ctx.resolve(p))
         return lo >= 0 and hi <= 1
